@@ -19,7 +19,8 @@ RULE = (
     "calls, multi-axis grid ufuncs, signature pairs, COMODO/SGRID autoparsing, metric partitions, transform) written with "
     "canonical upper-case tokens, and an injective renaming of every token (axes, dims, coordinate and data variables, face "
     "dim, ufunc dummy names, target dims, array names) to identifiers of length 1-12: single letters a-z, names embedding a "
-    "position word, case variants of position words, prefixes / suffixes / substrings of other names of the same renaming, and "
+    "position word, case variants of position words, prefixes / suffixes / substrings of other names of the same renaming, parameter "
+    "names of the xarray methods xgcm calls (drop, missing_dims, indexers, ...), names already used in another namespace, and "
     "a dictionary harvested at run time from the string literals of xgcm/*.py used alone and as suffixes; the five bare "
     "position words are excluded. Oracle: outcomes of the canonical and the renamed run are identical after mapping names back. "
     "Non-trivial = the renaming contains a hostile name (always, by construction) and the scenario has >= 1 call that returns; "
@@ -29,9 +30,48 @@ ASSUMPTIONS = [
     "the canonical upper-case tokens are themselves behaviour-neutral names (they contain no position word and are not "
     "substrings of each other in a way the code could notice); the relation compares two xgcm runs",
     "exception *types* must agree, messages are ignored (they legitimately contain names)",
+    "names that xarray itself cannot carry through squeeze / isel / rename / pad / concat / apply_ufunc (decided by running those "
+    "operations; today 'drop', 'missing_dims' and 'indexers' break DataArray.squeeze, which only the face-connected padding uses, so "
+    "they are withheld from face-connected scenarios only) are outside xgcm's responsibility",
 ]
 POSITION_WORDS = ["center", "left", "right", "inner", "outer"]
 _HARVEST = None
+
+
+_SAFE = {}
+
+
+def xarray_safe(name, squeeze=True):
+    """False for names that xarray *itself* cannot carry through the operations xgcm relies on (e.g. a size-1 dimension
+    called 'drop' breaks DataArray.squeeze inside xarray): such names are outside what xgcm can be held responsible for
+    and are never handed out.  Decided by running the operations, not by a list."""
+    key = (name, squeeze)
+    if key not in _SAFE:
+        import numpy as np
+        import xarray as xr
+
+        try:
+            a = xr.DataArray(np.arange(4.0).reshape(1, 4), dims=[name, "other_dim_q"])
+            b = xr.DataArray(np.arange(8.0).reshape(2, 4), dims=[name, "other_dim_q"])
+            if squeeze:  # only the face-connected padding squeezes slices
+                a.squeeze()
+                b.isel({name: slice(0, 1)}).squeeze()
+            b.rename({name: "renamed_q"}).rename({"renamed_q": name})
+            b.pad({name: (1, 1)}, "wrap")
+            b.pad({name: (1, 0)}, "constant", constant_values=0.0)
+            b.transpose("other_dim_q", name)
+            b.cumsum(dim=name)
+            b.sum([name])
+            xr.concat([b, b], dim=name)
+            b.assign_coords({name: (name, np.arange(2.0))}).reset_coords(drop=True).reset_index([name], drop=True)
+            b.isel({"other_dim_q": 0}).expand_dims(["other_dim_q"])
+            b.chunk({name: 1}).compute()
+            xr.Dataset(coords={name: (name, np.arange(2.0))})[name]
+            xr.apply_ufunc(lambda x: x, b, input_core_dims=[[name]], output_core_dims=[[name]], exclude_dims={name})
+            _SAFE[key] = True
+        except Exception:  # noqa: BLE001
+            _SAFE[key] = False
+    return _SAFE[key]
 
 
 def harvested():
@@ -58,11 +98,14 @@ def harvested():
 LETTERS = [chr(c) for c in range(ord("a"), ord("z") + 1)]
 EMBEDDED = ["leftish", "xinner", "router", "center_x", "outerX", "inner1", "aleft", "right_", "centers", "lefty", "souter"]
 CASE = ["Center", "LEFT", "Right", "INNER", "Outer", "CENTER", "Left"]
-ALWAYS = ["dummy", "temp_unique", "remapped", "face", "depth", "time", "lon", "lat"]
+# besides xgcm's own literals: parameter names of the xarray methods xgcm calls (a dimension called like one of them
+# must not be mistaken for a keyword when it is passed as **{dim: ...})
+ALWAYS = ["dummy", "temp_unique", "remapped", "drop", "missing_dims", "indexers", "face", "depth", "time", "lon", "lat",
+          "dim", "name", "axis", "keep_attrs", "skipna", "mode", "names", "coords", "dims", "data", "attrs", "values", "variable"]
 
 
 @st.composite
-def renaming_for(draw, toks, reserved=()):
+def renaming_for(draw, toks, reserved=(), squeeze=True):
     """toks: {token: namespace}.  Names are unique within a namespace; across namespaces the same name may be (and
     regularly is) handed out twice: an axis called like one of its dimensions, a ufunc dummy name equal to the name
     of a real axis (possibly of *another* axis of the same call)."""
@@ -104,6 +147,8 @@ def renaming_for(draw, toks, reserved=()):
             else:
                 cand = draw(st.sampled_from(LETTERS))
         cand = cand.lstrip("_") or "u"
+        if not xarray_safe(cand, squeeze):
+            cand = "q" + cand[:10]
         if not cand.isidentifier() or cand in POSITION_WORDS:
             cand = "q" + cand[:10] if ("q" + cand[:10]).isidentifier() else "q"
         k = 0
@@ -122,7 +167,7 @@ def strategy_impl(draw, tier):
     toks = scen_gen.tokens_of(sc)
     # SGRID axes are always called X, Y, Z by the convention: those are constants of the scenario, not renamable tokens
     reserved = [a for a in ("X", "Y", "Z") if a not in toks] if sc.get("family") == "autoparse" else []
-    return {"scenario": sc, "renaming": draw(renaming_for(toks, reserved)), "spaces": toks}
+    return {"scenario": sc, "renaming": draw(renaming_for(toks, reserved, squeeze=sc.get("family") == "faces")), "spaces": toks}
 
 
 def strategy(tier):
